@@ -126,8 +126,38 @@ fn gen_rt_to(rng: &mut Rng, fs: i64, cnt: i64, target: i64) -> RtInt {
 
 // ------------------------------------------------------------------ shapes
 
+/// where a string operand comes from: a literal (two literals are folded by the compiler), a
+/// global variable defined before compiling (value known only at scan time: a reference-counted
+/// runtime string), or the result of a function call (`math.to_string(<run-time integer>)`)
+#[derive(Clone, Debug)]
+enum StrSrc { Lit(Vec<u8>), Global(Vec<u8>), ToString(RtInt) }
+
+impl StrSrc {
+    fn bytes(&self, env: &Env) -> Option<Vec<u8>> {
+        match self { StrSrc::Lit(b) | StrSrc::Global(b) => Some(b.clone()), StrSrc::ToString(r) => r.eval(env).map(|v| v.to_string().into_bytes()) }
+    }
+    fn is_lit(&self) -> bool { matches!(self, StrSrc::Lit(_)) }
+}
+
+fn yara_lit(b: &[u8]) -> String {
+    let mut s = String::from("\"");
+    for &c in b { if c == b'"' || c == b'\\' { s.push('\\'); s.push(c as char); } else if (0x20..0x7f).contains(&c) { s.push(c as char); } else { s.push_str(&format!("\\x{:02x}", c)); } }
+    s.push('"'); s
+}
+fn yara_regex(b: &[u8]) -> String {
+    let mut s = String::from("/");
+    for &c in b { if c.is_ascii_alphanumeric() { s.push(c as char); } else { s.push_str(&format!("\\x{:02x}", c)); } }
+    if b.is_empty() { s.push_str("a?"); }
+    s.push('/'); s
+}
+
+const STR_OPS: [(&str, &str); 14] = [("contains", "OContains"), ("icontains", "OIContains"), ("startswith", "OStartsWith"), ("istartswith", "OIStartsWith"),
+    ("endswith", "OEndsWith"), ("iendswith", "OIEndsWith"), ("iequals", "OIEquals"), ("==", "OEq"), ("!=", "ONe"), ("<", "OLt"), (">", "OGt"), ("<=", "OLe"), (">=", "OGe"), ("matches", "OMatches")];
+
 #[derive(Clone, Debug)]
 enum Shape {
+    /// `l op r` for a binary string operator
+    StrOp { op: usize, l: StrSrc, r: StrSrc },
     /// `N of ($a, $b)`: contiguous pattern ids -> pat_range_match(start, end, N)
     OfRange { n: RtInt, them: bool },
     /// `for N of ($a, $b) : ($)`: loop, N only compared inside WASM
@@ -176,7 +206,7 @@ const TOKENS: [(&str, &str, &str); 3] = [("AAAA", "BBBB", "QZ"), ("CCCC", "DDDD"
 impl Shape {
     fn kind(&self) -> &'static str {
         match self {
-            Shape::OfRange { .. } => "N of (contiguous)", Shape::ForNOf { .. } => "for N of", Shape::PctOf { .. } => "Q% of",
+            Shape::StrOp { .. } => "string operator", Shape::OfRange { .. } => "N of (contiguous)", Shape::ForNOf { .. } => "for N of", Shape::PctOf { .. } => "Q% of",
             Shape::PctRange { .. } => "for Q% in range", Shape::ForNRange { .. } => "for N in range",
             Shape::Div { .. } => "div", Shape::Mod { .. } => "mod", Shape::Shl { .. } => "shl", Shape::Shr { .. } => "shr", Shape::Arith { .. } => "arith",
             Shape::At { .. } => "$a at N", Shape::In { .. } => "$a in (lo..hi)", Shape::CountIn { .. } => "#a in (lo..hi)",
@@ -196,6 +226,7 @@ impl Shape {
             Shape::In { lo, hi } | Shape::CountIn { lo, hi } => vec![lo, hi],
             Shape::HashRange { off, size, .. } => vec![off, size],
             Shape::MathRange { off, len, .. } | Shape::ConsoleRange { off, len, .. } => vec![off, len],
+            Shape::StrOp { l, r, .. } => { let mut v = vec![]; for x in [l, r] { if let StrSrc::ToString(t) = x { v.push(t); } } v }
             Shape::Arith { .. } | Shape::Other { .. } => vec![],
         }
     }
@@ -206,6 +237,14 @@ impl Shape {
         let mut strings: Vec<&str> = vec![];
         let mut imports: Vec<&'static str> = vec![];
         let cond = match self {
+            Shape::StrOp { op, l, r } => {
+                let name = |side: &str| format!("g{}{}", idx, side);
+                let txt = |x: &StrSrc, side: &str, imports: &mut Vec<&'static str>| match x {
+                    StrSrc::Lit(b) => yara_lit(b), StrSrc::Global(_) => name(side),
+                    StrSrc::ToString(t) => { if !imports.contains(&"math") { imports.push("math"); } format!("math.to_string({})", t.text()) } };
+                let lt = txt(l, "l", &mut imports);
+                let rt = if STR_OPS[*op].0 == "matches" { match r { StrSrc::Lit(b) | StrSrc::Global(b) => yara_regex(b), _ => "/1/".into() } } else { txt(r, "r", &mut imports) };
+                format!("{} {} {}", lt, STR_OPS[*op].0, rt) }
             Shape::OfRange { n, them } => { strings = vec![a, b]; format!("{} of {}", n.text(), if *them { "them" } else { "($a, $b)" }) }
             Shape::ForNOf { n } => { strings = vec![a, b]; format!("for {} of ($a, $b) : ( $ )", n.text()) }
             Shape::PctOf { q, for_form } => { strings = vec![a, b]; if *for_form { format!("for {}% of ($a, $b) : ( $ )", q.text()) } else { format!("{}% of ($a, $b)", q.text()) } }
@@ -241,6 +280,37 @@ impl Shape {
         if uses_c { strings.push(c.as_str()); }
         RuleText { strings: strings.into_iter().map(|x| x.to_string()).collect(), imports, cond }
     }
+    /// global variables the rule at position idx needs: (identifier, value)
+    fn globals(&self, idx: usize) -> Vec<(String, Vec<u8>)> {
+        let mut v = vec![];
+        if let Shape::StrOp { op, l, r } = self {
+            if let StrSrc::Global(b) = l { v.push((format!("g{}l", idx), b.clone())); }
+            if let StrSrc::Global(b) = r { if STR_OPS[*op].0 != "matches" { v.push((format!("g{}r", idx), b.clone())); } }
+        }
+        v
+    }
+    /// evaluation path of a string operator (what wasm/string.rs distinguishes) and the length relation of the operands
+    fn str_path(&self, env: &Env) -> Option<String> {
+        if let Shape::StrOp { op, l, r } = self {
+            let (lb, rb) = (l.bytes(env)?, r.bytes(env)?);
+            let name = STR_OPS[*op].0;
+            let eval = if l.is_lit() && (r.is_lit() || name == "matches") { "literal operands (folded or literal ids)" } else if matches!(l, StrSrc::ToString(_)) || matches!(r, StrSrc::ToString(_)) { "function result operand" } else { "global variable operand" };
+            let path = if name == "matches" { "regexp" } else if !name.starts_with('i') { "case-sensitive bstr" }
+                       else if lb.is_ascii() && rb.is_ascii() { "ci ASCII fast path" } else if std::str::from_utf8(&lb).is_ok() && std::str::from_utf8(&rb).is_ok() { "ci to_lowercase (non-ASCII UTF-8)" } else { "ci to_lowercase (invalid UTF-8)" };
+            let rel = if rb.is_empty() { "right empty" } else if rb.len() < lb.len() { "right shorter" } else if rb.len() == lb.len() { "equal length" } else { "right longer" };
+            return Some(format!("{} | {} | {}", path, eval, rel));
+        }
+        None
+    }
+    /// Coq term; `obs`: whether the rule matched (None when not observed)
+    fn coq_obs(&self, env: &Env, datalen: Option<i64>, obs: Option<bool>) -> String {
+        if let Shape::StrOp { op, l, r } = self {
+            let bl = |b: Option<Vec<u8>>| match b { None => "None".to_string(), Some(v) => format!("(Some {}%Z)", coq_list(&v, |x| format!("{}", x))) };
+            let runtime = !(l.is_lit() && (r.is_lit() || STR_OPS[*op].0 == "matches"));
+            return format!("SStrOp {} {} {} {} {}", STR_OPS[*op].1, coq_bool(runtime), bl(l.bytes(env)), bl(r.bytes(env)), match obs { None => "None", Some(true) => "(Some true)", Some(false) => "(Some false)" });
+        }
+        self.coq(env, datalen)
+    }
     /// Coq term of the shape with operands evaluated under `env` (None = undefined)
     fn coq(&self, env: &Env, datalen: Option<i64>) -> String {
         let z = |r: &RtInt| coq_oz(r.eval(env));
@@ -267,7 +337,7 @@ impl Shape {
             Shape::HashRange { f, off, size } => format!("SHashRange \"{}\" {} {}", rust_fn(f), z(off), z(size)),
             Shape::MathRange { f, off, len } => format!("SDataRange \"{}\" {} {}", rust_fn(f), z(off), z(len)),
             Shape::ConsoleRange { off, len, .. } => format!("SConsoleRange {} {} {}", z(off), z(len), coq_oz(datalen)),
-            Shape::ForNOf { .. } | Shape::ForNRange { .. } | Shape::ForInAt { .. } | Shape::Arith { .. } | Shape::Other { .. } => "SOther".into(),
+            Shape::ForNOf { .. } | Shape::ForNRange { .. } | Shape::ForInAt { .. } | Shape::Arith { .. } | Shape::Other { .. } | Shape::StrOp { .. } => "SOther".into(),
         }
     }
     /// which known trap / panic class this shape hits under `env` (harness-side
@@ -366,7 +436,53 @@ fn gen_bounds(rng: &mut Rng, starts: &[i64], len: i64) -> (i64, i64) {
     }
 }
 
+/// operand pairs over the length matrix (empty / shorter / equal / longer; prefix, suffix, infix,
+/// case-flipped, near-miss of each other) x {ASCII, non-ASCII UTF-8, invalid UTF-8}
+fn gen_str_pair(rng: &mut Rng, left: Option<Vec<u8>>) -> (Vec<u8>, Vec<u8>) {
+    let word = |rng: &mut Rng| -> Vec<u8> { let n = rng.below(7) as usize; (0..n).map(|_| *rng.pick(b"abABzZ09_ xY")).collect() };
+    let flip = |v: &[u8]| -> Vec<u8> { v.iter().map(|c| if c.is_ascii_lowercase() { c.to_ascii_uppercase() } else { c.to_ascii_lowercase() }).collect() };
+    let mut l = left.unwrap_or_else(|| word(rng));
+    let extra = |rng: &mut Rng| -> Vec<u8> { let n = 1 + rng.below(4) as usize; (0..n).map(|_| *rng.pick(b"xyzQ7")).collect() };
+    let mut r: Vec<u8> = match rng.below(12) {
+        0 => vec![],
+        1 => l.clone(),
+        2 => flip(&l),
+        3 => l[..l.len() / 2].to_vec(),
+        4 => flip(&l[l.len() - l.len() / 2..]),
+        5 => { let a = l.len() / 3; l[a..l.len() - a.min(l.len() - a)].to_vec() }
+        6 => { let mut v = l.clone(); v.extend(extra(rng)); v }                  // longer, left is a prefix of right
+        7 | 8 => { let mut v = extra(rng); v.extend(flip(&l)); v }              // longer, left is a (case-flipped) suffix of right
+        9 => { let mut v = l.clone(); if !v.is_empty() { let i = rng.below(v.len() as u64) as usize; v[i] ^= 1; } v }
+        10 => { let mut v = extra(rng); v.extend(l.clone()); v.extend(extra(rng)); v }
+        _ => word(rng),
+    };
+    // character classes: mostly ASCII (the fast path), some non-ASCII UTF-8, some invalid UTF-8
+    match rng.below(10) {
+        0 => { let t = *rng.pick(&["\u{e9}", "\u{df}", "\u{130}", "\u{1c4}", "\u{f1}A"]); if rng.chance(1, 2) { l.extend_from_slice(t.as_bytes()); } else { r.extend_from_slice(t.as_bytes()); } }
+        1 => { let t = *rng.pick(&["\u{c9}", "\u{d1}"]); l.extend_from_slice(t.to_lowercase().as_bytes()); r.extend_from_slice(t.as_bytes()); }
+        2 => { let t: &[u8] = *rng.pick(&[&b"\xff"[..], b"\xc3", b"\x80\x80", b"\x00"]); if rng.chance(1, 2) { l.extend_from_slice(t); } else { r.extend_from_slice(t); } }
+        _ => {}
+    }
+    if rng.chance(1, 8) { std::mem::swap(&mut l, &mut r); }
+    (l, r)
+}
+
+fn gen_strop(rng: &mut Rng, fs: i64, cnt: i64) -> Shape {
+    let op = if rng.chance(3, 5) { rng.below(7) as usize } else { rng.below(14) as usize };
+    // the left operand is sometimes the result of a function call on a run-time integer
+    let (l, lb) = if rng.chance(1, 7) { let tv = *rng.pick(&[0i64, 7, -1, 12345, i64::MAX, i64::MIN]); let t = gen_rt_to(rng, fs, cnt, tv);
+                                        let v = t.eval(&Env { filesize: Some(fs), count: cnt }).unwrap_or(0).to_string().into_bytes(); (Some(StrSrc::ToString(t)), Some(v)) } else { (None, None) };
+    let (a, b) = gen_str_pair(rng, lb);
+    let src = |rng: &mut Rng, v: Vec<u8>| if rng.chance(2, 5) { StrSrc::Lit(v) } else { StrSrc::Global(v) };
+    let l = l.unwrap_or_else(|| src(rng, a));
+    let mut r = src(rng, b);
+    // two literals are folded at compile time: keep some, but mostly force a run-time operand
+    if l.is_lit() && r.is_lit() && rng.chance(3, 4) { if let StrSrc::Lit(v) = r { r = StrSrc::Global(v); } }
+    Shape::StrOp { op, l, r }
+}
+
 fn gen_shape(rng: &mut Rng, fs: i64, cnt: i64, others: &[Shape], starts: &[i64]) -> Shape {
+    if rng.chance(1, 5) { return gen_strop(rng, fs, cnt); }
     // shapes aimed at the match lists: run-time bounds / indexes placed around real matches
     if !starts.is_empty() && (if starts.len() >= 2 { rng.chance(3, 5) } else { rng.chance(1, 4) }) {
         let nm = starts.len() as i64;
@@ -462,7 +578,9 @@ fn gen_shape(rng: &mut Rng, fs: i64, cnt: i64, others: &[Shape], starts: &[i64])
 }
 
 #[derive(Clone)]
-struct Case { shapes: Vec<Shape>, src: String, data: Vec<u8>, buf_kind: &'static str }
+struct Case { shapes: Vec<Shape>, src: String, data: Vec<u8>, buf_kind: &'static str, globals: Vec<(String, Vec<u8>)> }
+
+fn globals_of(shapes: &[Shape]) -> Vec<(String, Vec<u8>)> { shapes.iter().enumerate().flat_map(|(i, s)| s.globals(i)).collect() }
 
 fn count_tok(d: &[u8], idx: usize) -> i64 { let t = TOKENS[idx % 3].2.as_bytes(); d.windows(2).filter(|w| *w == t).count() as i64 }
 
@@ -508,14 +626,14 @@ fn gen_case(rng: &mut Rng, others: &[Shape]) -> Case {
     let fs = data.len() as i64;
     let n = match rng.below(10) { 0..=6 => 1, 7 | 8 => 2, _ => 3 };
     let shapes: Vec<Shape> = (0..n).map(|i| { let st = match_starts(&data, i); gen_shape(rng, fs, count_tok(&data, i), others, &st) }).collect();
-    Case { src: build_source(&shapes), shapes, data, buf_kind }
+    Case { src: build_source(&shapes), globals: globals_of(&shapes), shapes, data, buf_kind }
 }
 
 /// the known defects (DESIGN.md section 7, #5 #7 #8) and earlier failures, run first
 fn corpus() -> Vec<Case> {
     let fsz = |op, k| RtInt { leaf: Leaf::Filesize, op, k };
     let konst = |k| RtInt { leaf: Leaf::Filesize, op: Op::Const, k };
-    let mk = |shapes: Vec<Shape>, data: &[u8]| Case { src: build_source(&shapes), shapes, data: data.to_vec(), buf_kind: "corpus" };
+    let mk = |shapes: Vec<Shape>, data: &[u8]| Case { src: build_source(&shapes), globals: globals_of(&shapes), shapes, data: data.to_vec(), buf_kind: "corpus" };
     vec![
         mk(vec![Shape::OfRange { n: fsz(Op::Add, 0x7_ffff_fff0), them: false }], b"AAAA BBBB"),
         mk(vec![Shape::Div { a: konst(i64::MIN), b: fsz(Op::Sub, 4) }], b"abc"),
@@ -524,6 +642,10 @@ fn corpus() -> Vec<Case> {
         mk(vec![Shape::HashRange { f: "hash.md5", off: konst(i64::MAX), size: fsz(Op::Bare, 0) }], b"abc"),
         mk(vec![Shape::ConsoleRange { off: fsz(Op::Sub, 1), len: konst(i64::MAX), msg: false }], b"abc"),
         mk(vec![Shape::OfRange { n: fsz(Op::Add, 0x7fff_fffe), them: true }], b"A"),
+        // case-insensitive ASCII fast paths with a right operand longer than the left / empty, operands known only at scan time
+        mk(vec![Shape::StrOp { op: 5, l: StrSrc::Global(b"ab".to_vec()), r: StrSrc::Lit(b"xyzAB".to_vec()) }], b"abc"),
+        mk(vec![Shape::StrOp { op: 3, l: StrSrc::Global(b"ab".to_vec()), r: StrSrc::Global(b"ABxyz".to_vec()) }, Shape::StrOp { op: 1, l: StrSrc::Global(b"ab".to_vec()), r: StrSrc::Global(vec![]) }], b"abc"),
+        mk(vec![Shape::StrOp { op: 1, l: StrSrc::ToString(fsz(Op::Bare, 0)), r: StrSrc::Global(b"1234567".to_vec()) }, Shape::StrOp { op: 5, l: StrSrc::Global(vec![]), r: StrSrc::Global(b"A".to_vec()) }], b"abc"),
         // inverted run-time range with a match strictly between the bounds
         mk(vec![Shape::CountIn { lo: fsz(Op::Sub, 4), hi: fsz(Op::Sub, 14) }], b"AAAA__AAAA__AAAA___"),
         mk(vec![Shape::In { lo: fsz(Op::Sub, 4), hi: fsz(Op::Sub, 14) }], b"AAAA__AAAA__AAAA___"),
@@ -535,6 +657,18 @@ fn corpus() -> Vec<Case> {
 }
 
 // ------------------------------------------------------------------ child
+
+// `mod compiler` of the capi crate is private: its #[no_mangle] functions are reachable
+// through their C symbols only (needed to define global variables before compiling).
+#[repr(C)]
+pub struct YRX_COMPILER { _p: [u8; 0] }
+extern "C" {
+    fn yrx_compiler_create(flags: u32, compiler: *mut *mut YRX_COMPILER) -> yara_x_capi::YRX_RESULT;
+    fn yrx_compiler_destroy(compiler: *mut YRX_COMPILER);
+    fn yrx_compiler_add_source(compiler: *mut YRX_COMPILER, src: *const std::ffi::c_char) -> yara_x_capi::YRX_RESULT;
+    fn yrx_compiler_define_global_str(compiler: *mut YRX_COMPILER, ident: *const std::ffi::c_char, value: *const std::ffi::c_char) -> yara_x_capi::YRX_RESULT;
+    fn yrx_compiler_build(compiler: *mut YRX_COMPILER) -> *mut yara_x_capi::YRX_RULES;
+}
 
 #[derive(Clone, Debug, PartialEq)]
 enum Out { Ok, Err(String), Panic { site: String, msg: String }, Abort { sig: i32, site: String, msg: String }, Timeout, NotRun }
@@ -561,15 +695,19 @@ fn err_kind(e: &yara_x::ScanError) -> &'static str {
 
 fn say(s: &str) { let mut o = std::io::stdout().lock(); let _ = writeln!(o, "{}", s); let _ = o.flush(); }
 
-/// consume results the way a client would: iterate rules, patterns, matches, data()
-fn consume(r: &yara_x::ScanResults) -> usize {
+/// consume results the way a client would: iterate rules, patterns, matches, data();
+/// returns the identifiers of the matching rules
+fn consume(r: &yara_x::ScanResults) -> String {
     let mut n = 0;
+    let mut names = vec![];
     for rule in r.matching_rules() {
         n += 1;
+        names.push(rule.identifier().to_string());
         for p in rule.patterns() { for m in p.matches().take(50) { n += m.data().len().min(1); let _ = m.range(); } }
     }
     for _ in r.non_matching_rules() { n += 1; }
-    n
+    let _ = n;
+    names.join(",")
 }
 
 /// Child: {"src","data_hex","modes":[..],"tmp"} on stdin. Prints, per mode,
@@ -591,7 +729,12 @@ fn child() -> i32 {
     let tmp = v["tmp"].as_str().unwrap().to_string();
     let modes: Vec<String> = v["modes"].as_array().unwrap().iter().map(|m| m.as_str().unwrap().to_string()).collect();
 
+    let globals: Vec<(String, Vec<u8>)> = v["globals"].as_array().map(|a| a.iter().map(|g| (g[0].as_str().unwrap().to_string(), unhex(g[1].as_str().unwrap()))).collect()).unwrap_or_default();
     let mut comp = yara_x::Compiler::new();
+    for (name, val) in &globals {
+        let ok = match std::str::from_utf8(val) { Ok(sv) => comp.define_global(name, sv).is_ok(), Err(_) => comp.define_global(name, val.as_slice()).is_ok() };
+        if !ok { say("REJECTED define_global failed"); return 0; }
+    }
     let added = catch(AssertUnwindSafe(|| comp.add_source(src.as_str()).map(|_| ()).map_err(|e| e.to_string())));
     match added {
         Ok(Ok(())) => {}
@@ -600,7 +743,7 @@ fn child() -> i32 {
     }
     let rules = match catch(AssertUnwindSafe(move || comp.build())) { Ok(r) => r, Err(_) => { say("COMPILE-PANIC"); return 0; } };
     say("COMPILED");
-    let res = |r: Result<usize, String>| match r { Ok(_) => "ok".to_string(), Err(k) => format!("err:{}", k) };
+    let res = |r: Result<String, String>| match r { Ok(names) => format!("ok {}", names).trim_end().to_string(), Err(k) => format!("err:{}", k) };
     for m in modes {
         say(&format!("MODE {}", m));
         let bufs: [&[u8]; 2] = [&data, REUSE_DATA];
@@ -640,9 +783,25 @@ fn child() -> i32 {
                 use yara_x_capi::*;
                 let csrc = std::ffi::CString::new(src.as_str()).unwrap();
                 let mut crules: *mut YRX_RULES = std::ptr::null_mut();
-                if !matches!(yrx_compile(csrc.as_ptr(), &mut crules), YRX_RESULT::YRX_SUCCESS) { say("SCAN capi 0 err:capi-compile"); continue; }
+                if globals.is_empty() {
+                    if !matches!(yrx_compile(csrc.as_ptr(), &mut crules), YRX_RESULT::YRX_SUCCESS) { say("SCAN capi 0 err:capi-compile"); say("SCAN capi 1 err:capi-compile"); continue; }
+                } else {
+                    // globals need the compiler API; C strings cannot carry NUL bytes or invalid UTF-8
+                    let cg: Option<Vec<(std::ffi::CString, std::ffi::CString)>> = globals.iter().map(|(k, v)| {
+                        if std::str::from_utf8(v).is_err() { return None; }
+                        Some((std::ffi::CString::new(k.as_str()).ok()?, std::ffi::CString::new(v.clone()).ok()?)) }).collect();
+                    let cg = match cg { Some(x) => x, None => { say("SCAN capi 0 err:capi-global-not-a-c-string"); say("SCAN capi 1 err:capi-global-not-a-c-string"); continue; } };
+                    let mut cc: *mut YRX_COMPILER = std::ptr::null_mut();
+                    if !matches!(yrx_compiler_create(0, &mut cc), YRX_RESULT::YRX_SUCCESS) { say("SCAN capi 0 err:capi-compiler"); say("SCAN capi 1 err:capi-compiler"); continue; }
+                    let mut okg = true;
+                    for (k, v) in &cg { if !matches!(yrx_compiler_define_global_str(cc, k.as_ptr(), v.as_ptr()), YRX_RESULT::YRX_SUCCESS) { okg = false; } }
+                    if !okg || !matches!(yrx_compiler_add_source(cc, csrc.as_ptr()), YRX_RESULT::YRX_SUCCESS) { yrx_compiler_destroy(cc); say("SCAN capi 0 err:capi-compile"); say("SCAN capi 1 err:capi-compile"); continue; }
+                    crules = yrx_compiler_build(cc);
+                    yrx_compiler_destroy(cc);
+                    if crules.is_null() { say("SCAN capi 0 err:capi-build"); say("SCAN capi 1 err:capi-build"); continue; }
+                }
                 let mut sc: *mut YRX_SCANNER = std::ptr::null_mut();
-                if !matches!(yrx_scanner_create(crules, &mut sc), YRX_RESULT::YRX_SUCCESS) { say("SCAN capi 0 err:capi-create"); continue; }
+                if !matches!(yrx_scanner_create(crules, &mut sc), YRX_RESULT::YRX_SUCCESS) { say("SCAN capi 0 err:capi-create"); say("SCAN capi 1 err:capi-create"); continue; }
                 yrx_scanner_set_timeout(sc, SCAN_TIMEOUT_S);
                 for (i, b) in bufs.iter().enumerate() {
                     // a panic crossing the C ABI aborts the process: nothing to catch here
@@ -663,12 +822,15 @@ fn child() -> i32 {
 
 // ------------------------------------------------------------------ parent
 
-struct ChildRun { rejected: Option<String>, compiled: bool, outs: BTreeMap<String, Vec<Out>> }
+struct ChildRun { rejected: Option<String>, compiled: bool, outs: BTreeMap<String, Vec<Out>>,
+                  /// per mode, per scan: identifiers of the matching rules (None: not reported)
+                  matched: BTreeMap<String, Vec<Option<Vec<String>>>> }
 
 /// enclosing `fn` of file:line in /repo (so fingerprints survive line shifts)
 fn site_of(loc: &str) -> String {
     let (file, line) = match loc.rsplit_once(':') { Some((f, l)) => (f, l.parse::<usize>().unwrap_or(0)), None => (loc, 0) };
-    let rel = file.trim_start_matches("/repo/");
+    // repository-relative, wherever the checkout lives
+    let rel = ["/lib/src/", "/capi/src/", "/parser/src/", "/fmt/src/", "/macros/src/"].iter().find_map(|m| file.find(m).map(|i| &file[i + 1..])).unwrap_or_else(|| file.trim_start_matches("/repo/"));
     let path = if file.starts_with('/') { file.to_string() } else { format!("/repo/{}", file) };
     if let Ok(text) = std::fs::read_to_string(&path) {
         let lines: Vec<&str> = text.lines().collect();
@@ -688,7 +850,8 @@ fn site_of(loc: &str) -> String {
 }
 
 fn run_child(exe: &Path, case: &Case, modes: &[&str], tmp: &str) -> (ChildRun, Option<i32>, bool) {
-    let spec = serde_json::json!({"src": case.src, "data_hex": hex(&case.data), "modes": modes, "tmp": tmp});
+    let spec = serde_json::json!({"src": case.src, "data_hex": hex(&case.data), "modes": modes, "tmp": tmp,
+        "globals": case.globals.iter().map(|(k, v)| vec![k.clone(), hex(v)]).collect::<Vec<_>>()});
     let mut ch = Command::new(exe).arg("--child").stdin(Stdio::piped()).stdout(Stdio::piped()).stderr(Stdio::null()).spawn().unwrap();
     ch.stdin.take().unwrap().write_all(spec.to_string().as_bytes()).unwrap();
     let mut stdout = ch.stdout.take().unwrap();
@@ -707,7 +870,7 @@ fn run_child(exe: &Path, case: &Case, modes: &[&str], tmp: &str) -> (ChildRun, O
     let text = reader.join().unwrap_or_default();
     use std::os::unix::process::ExitStatusExt;
     let sig = status.signal();
-    let mut run = ChildRun { rejected: None, compiled: false, outs: BTreeMap::new() };
+    let mut run = ChildRun { rejected: None, compiled: false, outs: BTreeMap::new(), matched: BTreeMap::new() };
     let mut cur: Option<String> = None;
     let mut last_panic: Option<(String, String)> = None;
     for l in text.lines() {
@@ -723,12 +886,15 @@ fn run_child(exe: &Path, case: &Case, modes: &[&str], tmp: &str) -> (ChildRun, O
         }
         else if let Some(s) = l.strip_prefix("SCAN ") {
             let f: Vec<&str> = s.splitn(3, ' ').collect();
+            let mut names: Option<Vec<String>> = None;
             let o = match f[2] {
-                "ok" => Out::Ok,
+                "ok" => { if f[0] != "capi" { names = Some(vec![]); } Out::Ok }
+                x if x.starts_with("ok ") => { names = Some(x[3..].split(',').map(|t| t.to_string()).collect()); Out::Ok }
                 "panic" => { let (site, msg) = last_panic.take().unwrap_or(("?".into(), "?".into())); Out::Panic { site, msg } }
                 e => Out::Err(e.trim_start_matches("err:").to_string()),
             };
             run.outs.get_mut(f[0]).unwrap().push(o);
+            run.matched.entry(f[0].to_string()).or_default().push(names);
             last_panic = None;
         }
     }
@@ -747,14 +913,14 @@ fn run_child(exe: &Path, case: &Case, modes: &[&str], tmp: &str) -> (ChildRun, O
 /// all four modes of a case; a mode that kills the child does not hide the others
 fn run_case(exe: &Path, case: &Case, tmp: &str) -> ChildRun {
     let mut remaining: Vec<&str> = MODES.to_vec();
-    let mut total = ChildRun { rejected: None, compiled: false, outs: BTreeMap::new() };
+    let mut total = ChildRun { rejected: None, compiled: false, outs: BTreeMap::new(), matched: BTreeMap::new() };
     while !remaining.is_empty() {
         let (run, _sig, _hard) = run_child(exe, case, &remaining, tmp);
         if run.rejected.is_some() { total.rejected = run.rejected; return total; }
         if !run.compiled { total.rejected = Some("child died before the rules were compiled".into()); return total; }
         total.compiled = true;
         let mut done = 0;
-        for m in &remaining { if let Some(o) = run.outs.get(*m) { total.outs.insert(m.to_string(), o.clone()); done += 1; } else { break; } }
+        for m in &remaining { if let Some(o) = run.outs.get(*m) { total.outs.insert(m.to_string(), o.clone()); total.matched.insert(m.to_string(), run.matched.get(*m).cloned().unwrap_or_default()); done += 1; } else { break; } }
         if done == 0 { break; }
         remaining.drain(0..done);
     }
@@ -839,14 +1005,15 @@ fn run(args: &[String]) -> i32 {
     if let Some(src) = arg_val(args, "--replay-src") {
         // replay one (rules, data) pair: prints the outcomes
         let data = unhex(&arg_val(args, "--replay-data").unwrap_or_default());
-        let case = Case { shapes: vec![], src, data, buf_kind: "replay" };
+        let globals: Vec<(String, Vec<u8>)> = arg_val(args, "--replay-globals").map(|g| g.split(',').filter_map(|kv| kv.split_once('=')).map(|(k, v)| (k.to_string(), unhex(v))).collect()).unwrap_or_default();
+        let case = Case { shapes: vec![], src, data, buf_kind: "replay", globals };
         let r = run_case(&exe, &case, &tmp);
         if let Some(e) = &r.rejected { println!("rejected: {}", e); return 0; }
         let mut bad = false;
         for (m, outs) in &r.outs { for (i, o) in outs.iter().enumerate() { println!("{} scan#{}: {}", m, i, out_json(o)); if !matches!(o, Out::Ok | Out::Err(_)) { bad = true; } } }
         return if bad { 1 } else { 0 };
     }
-    let prelude = "From Coq Require Import List ZArith Bool String.\nFrom YV Require Import Cond.HostCheck.\nImport ListNotations.\nLocal Open Scope string_scope.\n";
+    let prelude = "From Coq Require Import List ZArith Bool String.\nFrom YV Require Import Cond.StrModel Cond.HostCheck.\nImport ListNotations.\nLocal Open Scope string_scope.\n";
     let mut shards = Shards::new(Path::new(&out), prelude, 150);
     let mut rng = Rng::new(seed);
     let others = other_shapes();
@@ -881,6 +1048,7 @@ fn run(args: &[String]) -> i32 {
             if pushed >= n { break; }
             for (ri, s) in case.shapes.iter().enumerate() {
                 stats.inc(&format!("shape:{}", s.kind()));
+                if let Some(p) = s.str_path(&Env { filesize: Some(case.data.len() as i64), count: count_tok(&case.data, ri) }) { stats.inc(&format!("strop:{}", p)); }
                 // where the run-time bounds / indexes fall relative to the real matches (in-memory scan)
                 let env = Env { filesize: Some(case.data.len() as i64), count: count_tok(&case.data, ri) };
                 let st = match_starts(&case.data, ri);
@@ -912,7 +1080,10 @@ fn run(args: &[String]) -> i32 {
                 let envs: Vec<Vec<Env>> = bufs.iter().map(|b| (0..case.shapes.len()).map(|ri|
                     Env { filesize: if blocks { None } else { Some(b.len() as i64) }, count: count_tok(b, ri) }).collect()).collect();
                 let dls = [if blocks { None } else { Some(case.data.len() as i64) }, if blocks { None } else { Some(REUSE_DATA.len() as i64) }];
-                let shapes_coq = |i: usize| { let v: Vec<String> = case.shapes.iter().enumerate().map(|(ri, s)| s.coq(&envs[i][ri], dls[i])).collect(); format!("[{}]", v.join("; ")) };
+                let mt = r.matched.get(m).cloned().unwrap_or_default();
+                let shapes_coq = |i: usize| { let v: Vec<String> = case.shapes.iter().enumerate().map(|(ri, s)| {
+                    let obs = mt.get(i).cloned().flatten().map(|names| names.iter().any(|n| *n == format!("r{}", ri)));
+                    s.coq_obs(&envs[i][ri], dls[i], obs) }).collect(); format!("[{}]", v.join("; ")) };
                 let mut scans = vec![]; let mut jouts = vec![]; let mut fps = vec![];
                 for i in 0..2 {
                     let o = outs.get(i).cloned().unwrap_or(Out::NotRun);
@@ -926,8 +1097,9 @@ fn run(args: &[String]) -> i32 {
                 let coq = format!("mkCase {} [{}]", coq_bool(release), scans.join("; "));
                 let fp = fps.first().cloned().unwrap_or_else(|| "C05:none".into());
                 if fp != "C05:none" { stats.inc(&format!("finding:{}", fp)); }
-                let replay = format!("{{\"rules\":{},\"data_hex\":{},\"mode\":{},\"profile\":{},\"outcomes\":[{}],\"fingerprint\":{},\"shapes\":{},\"replay\":{}}}",
-                    json_str(&case.src), json_str(&hex(&case.data)), json_str(m), json_str(if release { "release" } else { "debug" }), jouts.join(","), json_str(&fp),
+                let gl = case.globals.iter().map(|(k, v)| format!("{}={}", k, hex(v))).collect::<Vec<_>>().join(",");
+                let replay = format!("{{\"rules\":{},\"globals_hex\":{},\"data_hex\":{},\"mode\":{},\"profile\":{},\"outcomes\":[{}],\"fingerprint\":{},\"shapes\":{},\"replay\":{}}}",
+                    json_str(&case.src), json_str(&gl), json_str(&hex(&case.data)), json_str(m), json_str(if release { "release" } else { "debug" }), jouts.join(","), json_str(&fp),
                     json_str(&shapes_coq(0)),
                     json_str(&format!("c05 --replay-src '<rules>' --replay-data {}", hex(&case.data))));
                 if samples.len() < 3 && m == "mem" { samples.push(replay.clone()); }
